@@ -130,7 +130,12 @@ def xsd_type(t, defs, counter):
     else:
         a = xsd_type(t[1], defs, counter)
         b = xsd_type(t[2], defs, counter)
-        defs.append('<xs:simpleType name="%s"><xs:union memberTypes="%s %s"/></xs:simpleType>' % (name, a, b))
+        if len(t) > 3:
+            # the second member as a <xs:simpleType> child: the members named by memberTypes still come first
+            defs.append('<xs:simpleType name="%s"><xs:union memberTypes="%s"><xs:simpleType><xs:restriction base="%s"/></xs:simpleType>'
+                        '</xs:union></xs:simpleType>' % (name, a, b))
+        else:
+            defs.append('<xs:simpleType name="%s"><xs:union memberTypes="%s %s"/></xs:simpleType>' % (name, a, b))
     return name
 
 
@@ -339,7 +344,7 @@ def type_desc(t):
         return 'restriction(%s, %s, %s)' % (type_desc(t[1]), t[2].lower(), ', '.join('%s=%s' % (a, b) for a, b in t[3]))
     if t[0] == 'list':
         return 'list(%s)' % type_desc(t[1])
-    return 'union(%s, %s)' % (type_desc(t[1]), type_desc(t[2]))
+    return 'union(%s, %s%s)' % (type_desc(t[1]), type_desc(t[2]), ' as simpleType child' if len(t) > 3 else '')
 
 
 # ------------------------------------------------------------------ catalogues
@@ -441,7 +446,8 @@ def rand_restriction(rng, depth=2):
     else:
         a = ('builtin', rng.choice(['xs:byte', 'xs:integer', 'xs:boolean', 'xs:date']))
         b = ('builtin', rng.choice(['xs:decimal', 'xs:boolean', 'xs:token', 'xs:integer']))
-        return ('union', a, b), ['1', '128', '1.5', 'true', '0', 'abc', ' 1 ', '2020-01-01', '', '01', '1e2']
+        cat = ['1', '128', '1.5', 'true', '0', 'abc', ' 1 ', '2020-01-01', '', '01', '1e2']
+        return (('union', a, b, 'child') if rng.random() < 0.5 else ('union', a, b)), cat
     t = base
     ws = ws_of(base)
     for _ in range(rng.randint(1, depth)):
@@ -464,6 +470,14 @@ def gen(ctx):
                           ('xs:normalizedString', STR_CAT), ('xs:token', STR_CAT), ('xs:date', DATE_CAT)):
             texts = cat + [mutate(rng, rng.choice(cat)) for _ in range(nmut * 2)]
             cases.append({'type': ('builtin', name), 'version': version, 'texts': texts})
+    # unions whose members accept the same text with different values, the second member written in memberTypes or as a
+    # <xs:simpleType> child (the {member type definitions} list the memberTypes first)
+    ucat = ['1', '128', '1.5', 'true', '0', 'abc', ' 1 ', '2020-01-01', '', '01', '1e2']
+    for version in ('1.0', '1.1'):
+        for a, b in (('xs:integer', 'xs:token'), ('xs:token', 'xs:integer'), ('xs:boolean', 'xs:token'), ('xs:date', 'xs:token'),
+                     ('xs:byte', 'xs:decimal'), ('xs:boolean', 'xs:integer')):
+            for form in ((), ('child',)):
+                cases.append({'type': ('union', ('builtin', a), ('builtin', b)) + form, 'version': version, 'texts': ucat})
     for i in range(120 if q else 3000):
         t, cat = rand_restriction(rng)
         texts = list(cat) + ([mutate(rng, rng.choice(cat)) for _ in range(4)] if 'xs:QName' not in json.dumps(t) else [])
